@@ -153,4 +153,45 @@ def dsFailures (i : DsIn) (obs : List Key) : List Key :=
   obs.filter (fun k => isGenPos k.2.2 && kernActsOn i k.1 &&
     !obs.any (fun k' => k'.1 == k.1 && k'.2.1 == k.2.1 && (k'.2.2 == "kern" || k'.2.2 == "dist")))
 
+/-! ### merged cross-script kerning buckets (`mergeScripts`) and the converse direction across scripts -/
+
+/-- what the property needs of `mergeScripts`: the merged buckets are pairwise DISJOINT (a script's kerning lives in one
+bucket, so no bucket can be emptied in favour of another one sharing a script), name only scripts of the input, every
+input bucket's scripts and pairs are inside ONE merged bucket, and no pair is lost or invented. -/
+def holdsMerge (kps obs : List (SSet × List Nat)) : Bool :=
+  obs.Pairwise (fun a b => a.1.all (fun x => !b.1.contains x)) &&
+  obs.all (fun b => b.1.all (fun x => kps.any (fun k => k.1.contains x))) &&
+  kps.all (fun k => k.1.isEmpty || obs.any (fun b => k.1.all b.1.contains && k.2.all b.2.contains)) &&
+  (obs.flatMap (·.2)).isPerm (kps.flatMap (·.2))
+
+/-- input of the cross-script stream: each glyph's OpenType script tags (`["*"]` = common/inherited), the kerning pairs
+(groups expanded), the horizontal direction of each script tag -/
+structure XIn where
+  own : List (String × List Tag)
+  pairs : List (String × String)
+  dirs : List (Tag × String)
+  deriving Repr
+
+def xTags (i : XIn) (g : String) : List Tag := (alookup g i.own).getD []
+def xSpecific (i : XIn) (g : String) : Bool := !(xTags i g).isEmpty && !(xTags i g).contains "*"
+def xDirs (i : XIn) (g : String) : List String := (xTags i g).filterMap (fun t => alookup t i.dirs)
+
+/-- generated kerning acts on glyphs of script `s`: some pair between script-specific glyphs that all run in ONE direction
+has a glyph of `s` on either side (pairs of mixed direction cannot be applied by a shaper and are dropped by design) -/
+def kernActsOnX (i : XIn) (s : Tag) : Bool :=
+  i.pairs.any (fun p => xSpecific i p.1 && xSpecific i p.2 &&
+    (xDirs i p.1 ++ xDirs i p.2).all (fun d => (xDirs i p.1 ++ xDirs i p.2).all (· == d)) &&
+    ((xTags i p.1).contains s || (xTags i p.2).contains s))
+
+/-- **C20, converse direction, cross-script kerning**: a language system present in the compiled GPOS through a generated
+mark/mkmk/abvm/blwm/curs feature exposes generated kerning (kern or dist) too whenever a kerning pair involves a glyph of
+its script. -/
+def holdsX (i : XIn) (obs : List Key) : Bool :=
+  obs.all (fun k => !isGenPos k.2.2 || !kernActsOnX i k.1 ||
+    obs.any (fun k' => k'.1 == k.1 && k'.2.1 == k.2.1 && (k'.2.2 == "kern" || k'.2.2 == "dist")))
+
+def xFailures (i : XIn) (obs : List Key) : List Key :=
+  obs.filter (fun k => isGenPos k.2.2 && kernActsOnX i k.1 &&
+    !obs.any (fun k' => k'.1 == k.1 && k'.2.1 == k.2.1 && (k'.2.2 == "kern" || k'.2.2 == "dist")))
+
 end Ufo2ft.C20
